@@ -11,5 +11,6 @@ import (
 	_ "verifharness/c10"
 	_ "verifharness/c10r"
 	_ "verifharness/c14"
+	_ "verifharness/c16"
 	_ "verifharness/c18"
 )
